@@ -71,6 +71,12 @@ def parseOp (l : Line) : Option Op :=
   | "sv.insert_mv" => some (.svInsertMv st p v)
   | "sv.emplace" => some (.svEmplace st p v)
   | "sv.insert_rng" => some (.svInsertRng st p xs ord)
+  | "sv.move_insert" => some (.svMoveInsert st p xs ord)
+  | "sv.unsafe_set_size" => (sizeArg l "n").map fun n => .svUnsafeSetSize st n
+  | "sv.unsafe_destroy" => match l.int? "f", l.int? "l" with | some f, some t => some (.svUnsafeDestroy f t) | _, _ => none
+  | "iv.unsafe_set_size" => (sizeArg l "n").map .ivUnsafeSetSize
+  | "str.unsafe_set_size" => some (.strUnsafeSetSize a)
+  | "bs.to_u" => (l.nat? "d").map .bsToU
   | "sv.erase" => some (.svErase st p)
   | "sv.erase_rng" => match l.int? "f", l.int? "l" with | some f, some t => some (.svEraseRng st f t) | _, _ => none
   | "sv.resize" => (sizeArg l "n").map fun n => .svResize st n
